@@ -89,6 +89,30 @@ func wShard(p, ver int) *wImage {
 		return im
 	}
 	var im *wImage
+	// shard images are shared between worker processes through the per-tree
+	// image cache: building one costs ~0.5 s (the ShardBuilder's tables)
+	cacheFile := ""
+	if d := os.Getenv("VERIF_IMGCACHE"); d != "" {
+		os.MkdirAll(filepath.Join(d, "c19"), 0o755)
+		cacheFile = filepath.Join(d, "c19", fmt.Sprintf("%d-%d.zoekt", p, ver))
+		if data, err := os.ReadFile(cacheFile); err == nil && len(data) > 0 {
+			if p < 3 {
+				im = &wImage{data: data, repos: []string{fmt.Sprintf("w%d", p)}}
+			} else {
+				im = &wImage{data: data, repos: []string{"c0", "c1"}}
+			}
+			wCache[key] = im
+			return im
+		}
+	}
+	defer func() {
+		if cacheFile != "" && im != nil {
+			tmp := fmt.Sprintf("%s.%d.tmp", cacheFile, os.Getpid())
+			if os.WriteFile(tmp, im.data, 0o644) == nil {
+				os.Rename(tmp, cacheFile)
+			}
+		}
+	}()
 	if p < 3 {
 		name := fmt.Sprintf("w%d", p)
 		s := buildSimple(wRepo(uint32(p+1), name, ver), wRepo(uint32(p+1), name, ver).Docs, 0)
